@@ -41,6 +41,8 @@ def main():
         if "--skip-suite" not in sys.argv:
             out["suite_missing_with_patch"] = suite(wt)
         sh("git checkout -- src", cwd=wt)
+    if "--no-check" in sys.argv:
+        print(json.dumps(out, indent=1, ensure_ascii=False)); return 0
     # run the property's check against the patched scratch worktree (VF_REPO), never against /repo itself
     rc, o = sh(f"git apply {patch}", cwd=wt)
     if rc: out["error"] = "patch does not apply: " + o; print(json.dumps(out, indent=1)); return 2
